@@ -31,7 +31,21 @@ def plan(tier, seed):
     return [{'n': 260, 'gdb_shim': True, 'tui': 2500} for _ in range(56)] + [{'mode': 'tierb', 'n': 25, 'gdb_shim': True} for _ in range(8)]
 
 
+def ws_variant(rng, text):
+    """the white space between a command word and its argument, and around the line, is any white space"""
+    if ' ' in text and rng.random() < 0.3:
+        text = text.replace(' ', rng.choice(['\t', '  ', ' \t', '\x0c', '\t\t']), 1)
+    if rng.random() < 0.1:
+        text = rng.choice(['', ' ', '\t']) + text + rng.choice([' ', '\t', '  '])
+    return text
+
+
 def gen_user_command(rng, g, names, appids=()):
+    nm, arg, kind, payload = gen_user_command_(rng, g, names, appids)
+    return nm, ws_variant(rng, arg), kind, payload
+
+
+def gen_user_command_(rng, g, names, appids=()):
     """-> (gdb command name, arg, kind, payload)"""
     r = rng.random()
     if r < 0.45:
@@ -121,6 +135,7 @@ def run_gdb_session(ctx, rng, cands, trace=None):
             return 'continue'           # the user types gdb's own `continue`
         nm, arg = rng.choice(RESUME) if r < 0.92 else rng.choice(QUIT)
         want = 'continue' if (nm, arg) in RESUME else 'quit'
+        arg = ws_variant(rng, arg)
         script.append(['cmd', nm, arg])
         if trace is not None:
             trace['halts'][trace['cur']].append((nm + ' ' + arg).strip())
@@ -308,7 +323,7 @@ def run_tui(ctx, rng, n):
                     stop_at = j
             else:
                 c = rng.choice(['help', 'list', 'filter wl_surface', 'breakpoint .x', 'connection', 'bogus', '', 'rx', 'quitx', 'l ~ 2', 'matcher [', 'wl', 'h r', 'help quit'])
-            cmds.append(c)
+            cmds.append(ws_variant(rng, c))
         if stop_at is None:
             cmds.append('q')
             stop_at = len(cmds) - 1
